@@ -122,15 +122,19 @@ def is_ok(p):
 # ----------------------------------------------------------------------------------- writer
 
 def resume_loop(e):
-    """A `loop` effect that is std's write_all written out by hand — every continuing iteration performs exactly one
-    `write(w, buf)` on the loop variable `buf`, continues with `buf[n..]` for the returned count n, and the loop is
-    left normally only when `buf` is empty — delivers the initial `buf` completely: (sink, initial buffer) or None."""
+    """A `loop` effect that is std's write_all written out by hand: every continuing iteration performs exactly one
+    `write(w, buf)` on the loop variable `buf` and either continues with `buf[n..]` for the returned count n (the write
+    succeeded) or with `buf` unchanged (it failed: a retry, e.g. on Interrupted); the loop is left normally — `break` or
+    `return Ok(..)` — only when `buf` is empty, without writing. It delivers the initial `buf` completely:
+    (sink, initial buffer) or None."""
     if e.get("k") != "loop":
         return None
     init = e.get("init") or {}
     cont = [p for p in e.get("paths", []) if p["out"][0] in ("val", "cont")]
-    brk = [p for p in e.get("paths", []) if p["out"][0] == "brk"]
+    leave = [p for p in e.get("paths", []) if p["out"][0] == "brk"]
+    leave += [p for p in e.get("exits", []) if p["out"][0] == "ret" and isinstance(p["out"][1], tuple) and p["out"][1] and p["out"][1][0] == "ok"]
     found = None
+    advancing = 0
     for p in cont:
         ws = [x for x in p["eff"] if x["k"] == "call" and x["args"][0][1].startswith("std::io::Write::")]
         if len(ws) != 1 or ws[0]["args"][0][1] != "std::io::Write::write":
@@ -140,24 +144,28 @@ def resume_loop(e):
             return None
         nxt = (p.get("next") or {}).get(buf)
         want = ("app", "index", (buf, ("ctor", "std::ops::RangeFrom", None, (("start", ("payload", ws[0]["res"])),))))
-        if nxt != want:
+        res = ws[0]["res"]
+        failed = any((x["k"] == "assume_fail" and x["args"][0] == res) or
+                     (x["k"] == "assume" and x["args"][0] == ("app", "is_ok", (res,)) and x["args"][1] == lit(False)) for x in p["eff"])
+        if nxt == want and not failed:
+            advancing += 1
+        elif nxt == buf and failed:
+            pass            # nothing was written: try again
+        else:
             return None
         if found is not None and found != (ws[0]["args"][1], buf):
             return None
         found = (ws[0]["args"][1], buf)
-    if found is None:
+    if found is None or not advancing or not leave:
         return None
     sink, buf = found
     empty = ("app", "is_empty", (buf,))
-    for p in brk:
-        # left only when the buffer is empty, and without writing
+    for p in leave:
         if any(x["k"] == "call" and x["args"][0][1].startswith("std::io::Write::") for x in p["eff"]):
             return None
         conds = [(x["args"][0], x["args"][1]) for x in p["eff"] if x["k"] == "assume"]
         if not any((c == empty and v == lit(True)) or (c == ("app", "not", (empty,)) and v == lit(False)) for c, v in conds):
             return None
-    if not brk:
-        return None
     return sink, init[buf]
 
 
@@ -168,8 +176,20 @@ def settle_partial_writes(effs):
     from . import c08_account as AC
     out = []
     for e in effs:
-        if e["k"] == "loop" and not e.get("taken_exit"):
+        if e["k"] == "loop":
             r = resume_loop(e)
+            if r is not None and e.get("taken_exit"):
+                # left through `return Ok(..)`: only the exit that found the buffer empty completes the write
+                lvs = set((e.get("init") or {}).keys())
+                nxt_assumes = []
+                for x in effs[len(out) + 1:]:
+                    if x["k"] == "assume":
+                        nxt_assumes.append(x)
+                    else:
+                        break
+                took_empty = any(x["args"][0][0] == "app" and x["args"][0][1] == "is_empty" and x["args"][0][2][0] in lvs and x["args"][1] == lit(True) for x in nxt_assumes)
+                if not took_empty:
+                    r = None
             if r is not None:
                 out.append({"k": "call", "args": (lit("std::io::Write::write_all"), r[0], r[1]), "res": None, "at": e["at"], "settled": "resume loop"})
                 continue
@@ -282,7 +302,9 @@ def parse_writer(items, loops, self_fields):
                     # length-prefixed bytes
                     same = counted is not None and counted == nxt[2]
                     is_bytes = nxt[2][0] == "app" and nxt[2][1] == "bytes" or (nxt[2][0] == "iter" and nxt[2][1][0] == "app" and nxt[2][1][1] == "bytes")
-                    fields.append(("lenbytes:" + kind, src_of(nxt[2]), {"len_is_byte_len": same and is_bytes, "len_term": fmt_term(vv), "at": it[3]}))
+                    # `len()` of the very value handed to write_all is its length in bytes (str / String / [u8] / Vec<u8> all
+                    # measure bytes); a character count would be count_of(chars(..)) or the len of another sequence
+                    fields.append(("lenbytes:" + kind, src_of(nxt[2]), {"len_is_byte_len": same and (is_bytes or vv[1] == "len"), "len_term": fmt_term(vv), "at": it[3]}))
                     i += 2
                     continue
                 if nxt[0] == "each":
@@ -303,7 +325,11 @@ def parse_writer(items, loops, self_fields):
                     fields.append(("counted:%s:%s" % (kind, elem_kind), src_of(base) or src_of(counted), {"count_matches_sequence": same, "forward": fwd, "base": fmt_term(base)[:120], "at": it[3]}))
                     i += 2
                     continue
-            fields.append((kind, src_of(v) if v is not None else None, {"value": fmt_term(v) if v is not None else None, "at": it[3], "lit": v[1] if v is not None and v[0] == "lit" else None}))
+            # `value as u8` / `u8::from(value)` of the payload itself (From conversions are transparent in the model):
+            # false ↦ 0, true ↦ 1 by the language / std definition
+            bool_cast = v is not None and any(strip_cast(v) == t for t in self_fields.values())
+            fields.append((kind, src_of(v) if v is not None else None, {"value": fmt_term(v) if v is not None else None, "at": it[3], "lit": v[1] if v is not None and v[0] == "lit" else None,
+                                                                          "bool_cast": bool_cast}))
             i += 1
             continue
         if it[0] == "each":
@@ -385,7 +411,9 @@ def check_writer_variant(spec, layouts, variant):
                 if src != wf:
                     problems.append("position of `%s` holds `%s` (field order differs from S3)" % (wf, src))
             elif wp == "bool":
-                if kind != "u8" or d.get("lit") not in (0, 1):
+                if kind == "u8" and d.get("bool_cast"):
+                    pass        # `value as u8`: false ↦ 0, true ↦ 1 by the language definition
+                elif kind != "u8" or d.get("lit") not in (0, 1):
                     problems.append("boolean is not written as a single byte 0/1 (%s %s)" % (kind, d.get("value")))
                 else:
                     # polarity: path assuming the payload true writes 1
@@ -422,8 +450,10 @@ def check_writer_variant(spec, layouts, variant):
                     if src != wf:
                         problems.append("elements of `%s` come from `%s`" % (wf, src))
     if is_bool:
-        lits = sorted({L["fields"][1][2].get("lit") for L in layouts if len(L["fields"]) > 1})
-        if lits != [0, 1]:
+        lits = sorted({L["fields"][1][2].get("lit") for L in layouts if len(L["fields"]) > 1}, key=repr)
+        if any(len(L["fields"]) > 1 and L["fields"][1][2].get("bool_cast") for L in layouts):
+            pass
+        elif lits != [0, 1]:
             problems.append("boolean values written: %s, expected both 0 and 1" % lits)
     return sorted(set(problems))
 
